@@ -31,6 +31,9 @@ func F4(p *int, f float32, xs []int) (int16, bool) { return -4, false }
 func FV(s string, xs ...int) int { return -7 }
 
 //go:noinline
+func FV3(s string, n int, f float64, xs ...int) int { return -77 }
+
+//go:noinline
 func FVI(a int, xs ...interface{}) (int, error) { return -8, nil }
 
 type P2 struct{ X, Y int }
@@ -47,6 +50,9 @@ func (t *T) M(a int, s string) int { return -5 }
 
 //go:noinline
 func foo(a int) int { return -6 }
+
+//go:noinline
+func fooBar(a int) int { return -66 }
 
 type I interface {
 	Get(a int, s string) int
@@ -186,6 +192,8 @@ func TestC13(t *testing.T) {
 			prepare: func(b *mocker.Builder) { b.Func(F4).Return(int16(55), true) }},
 		{name: "FV", fn: FV, handle: func(b *mocker.Builder) mocker.ExportedMocker { return b.Func(FV) }, cbType: reflect.TypeOf(FV),
 			state: func() string { return fp(func() interface{} { return FV("s", 1, 2) }) }, prepare: func(b *mocker.Builder) { b.Func(FV).Return(55) }},
+		{name: "FV3", fn: FV3, handle: func(b *mocker.Builder) mocker.ExportedMocker { return b.Func(FV3) }, cbType: reflect.TypeOf(FV3),
+			state: func() string { return fp(func() interface{} { return FV3("s", 2, 1.5, 1, 2) }) }, prepare: func(b *mocker.Builder) { b.Func(FV3).Return(55) }},
 		{name: "FVI", fn: FVI, handle: func(b *mocker.Builder) mocker.ExportedMocker { return b.Func(FVI) }, cbType: reflect.TypeOf(FVI),
 			state:   func() string { return fp(func() interface{} { a, e := FVI(1, "x", 2); return fmt.Sprint(a, e) }) },
 			prepare: func(b *mocker.Builder) { b.Func(FVI).Return(55, nil) }},
@@ -420,6 +428,25 @@ func TestC13(t *testing.T) {
 		}},
 		{"unknown-symbol", "ExportStruct(nope).Method(m).Apply", func(b *mocker.Builder) { b.ExportStruct("nope").Method("m").Apply(func() {}) }},
 		{"unknown-symbol", "UnExportedVar(nope)", func(b *mocker.Builder) { b.UnExportedVar("no/such/pkg.v").Set(1) }},
+		// near misses of names that do exist: a proper prefix, a trailing character more or less, the value-receiver
+		// spelling of a method that only exists with a pointer receiver
+		{"unknown-symbol", "ExportFunc(fo).As [prefix of foo]", func(b *mocker.Builder) { b.ExportFunc("fo").As(func(a int) int { return 0 }).Return(1) }},
+		{"unknown-symbol", "ExportFunc(fooB).Apply [prefix of fooBar]", func(b *mocker.Builder) { b.ExportFunc("fooB").Apply(func(a int) int { return 0 }) }},
+		{"unknown-symbol", "ExportFunc(foo0).As [foo plus a character]", func(b *mocker.Builder) { b.ExportFunc("foo0").As(func(a int) int { return 0 }).Return(1) }},
+		{"unknown-symbol", "ExportFunc(fooa).Apply [foo plus a character]", func(b *mocker.Builder) { b.ExportFunc("fooa").Apply(func(a int) int { return 0 }) }},
+		{"unknown-symbol", "ExportFunc(fooBa).As [fooBar minus a character]", func(b *mocker.Builder) { b.ExportFunc("fooBa").As(func(a int) int { return 0 }).Return(1) }},
+		{"unknown-symbol", "ExportStruct(T).Method(M).Apply [value-receiver spelling of (*T).M]", func(b *mocker.Builder) {
+			b.ExportStruct("T").Method("M").Apply(func(t T, a int, s string) int { return 0 })
+		}},
+		{"unknown-symbol", "ExportStruct(T).Method(M).As [value-receiver spelling of (*T).M]", func(b *mocker.Builder) {
+			b.ExportStruct("T").Method("M").As(func(t T, a int, s string) int { return 0 }).Return(1)
+		}},
+		{"unknown-symbol", "ExportStruct(*T).Method(M0).Apply [M plus a character]", func(b *mocker.Builder) {
+			b.ExportStruct("*T").Method("M0").Apply(func(t *T, a int, s string) int { return 0 })
+		}},
+		{"unknown-symbol", "ExportStruct(*T).Method(m).Apply [other case]", func(b *mocker.Builder) {
+			b.ExportStruct("*T").Method("m").Apply(func(t *T, a int, s string) int { return 0 })
+		}},
 		{"interface-not-pointer", "Interface(iv value)", func(b *mocker.Builder) {
 			var x I = &NotIface{}
 			b.Interface(x).Method("Get").Apply(zeroFn(ifaceCb))
@@ -430,7 +457,7 @@ func TestC13(t *testing.T) {
 		{"var-not-pointer", "Var(5)", func(b *mocker.Builder) { b.Var(5).Set(6) }},
 	}
 	all := func() string {
-		return fmt.Sprint(F1(1), F2(1, "s"), (&T{}).M(1, "s"), foo(1), *(*[2]uintptr)(unsafe.Pointer(&iv)))
+		return fmt.Sprint(F1(1), F2(1, "s"), (&T{}).M(1, "s"), foo(1), fooBar(1), *(*[2]uintptr)(unsafe.Pointer(&iv)))
 	}
 	for _, m := range misc {
 		iv = nil
